@@ -251,8 +251,19 @@ def _xproc_cases(tier, rng):
     yield {**c, 'xproc': rng.randrange(1, 10 ** 6), 'kind': 'cross-process'}
 
 
+def _chunk_cases(tier):
+  """Datasets whose number of clients sits at and around 256 / 512 / 1024 (typical insert-chunk sizes of a
+  writer), written by one add_many call or by several calls of different sizes: tiny one-row clients."""
+  plans = [[255], [256], [257], [3, 256], [256, 3], [256, 256]]
+  if tier != 'quick':
+    plans += [[511], [512], [513], [1023], [1024], [1025], [512, 3], [256, 256, 256], [1, 255], [255, 1], [1024, 256]]
+  for k, calls in enumerate(plans):
+    yield {'kind': 'chunk', 'calls': calls, 'salt': k, 'ds': [], 'ops': [], 'aliens': [], 'reqs': [], 'seed': k, 'buf': 2}
+
+
 def generate(tier, rng):
   if tier != 'search':
+    yield from _chunk_cases(tier)
     yield from _fixed_cases()
     yield from _grid_cases(tier, rng)
     yield from _xproc_cases(tier, rng)
@@ -739,7 +750,56 @@ def _apply(fdm, cur, o, sel):
   raise ValueError(o)
 
 
+def _run_chunk(case):
+  """A large dataset of one-row clients through SQLiteFederatedDataBuilder (add_many called once per entry of
+  case['calls'], list / generator alternating) against the same dataset in memory: counts, ids, sizes, samples."""
+  from fedjax.core import federated_data as fdm
+  from fedjax.core import in_memory_federated_data as imm
+  from fedjax.core import sqlite_federated_data as sqm
+  n = sum(case['calls'])
+  ids = [b'k%05d' % ((7919 * (j + 1) + 31 * case.get('salt', 0)) % 100003) for j in range(n)]   # distinct, unsorted
+  data = {i: {'x': np.array([j], dtype=np.int64)} for j, i in enumerate(ids)}
+  tmp = tempfile.mkdtemp(prefix='c08-')
+  try:
+    path = os.path.join(tmp, 'fd.sqlite')
+    with sqm.SQLiteFederatedDataBuilder(path) as b:
+      pos = 0
+      for k, c in enumerate(case['calls']):
+        part = ids[pos:pos + c]
+        pos += c
+        b.add_many([(i, data[i]) for i in part] if k % 2 == 0 else ((i, data[i]) for i in part))
+    sql = sqm.SQLiteFederatedData.new(path)
+    mem = imm.InMemoryFederatedData(data)
+    try:
+      got_ids = list(sql.client_ids())
+      sizes = dict(sql.client_sizes())
+      yielded = [(k, int(d.raw_examples['x'][0])) for k, d in sql.clients()]
+      sample = [ids[0], ids[n // 2], ids[-1]]
+      gets = []
+      for i in sample:
+        try:
+          gets.append(int(sql.get_client(i).raw_examples['x'][0]))
+        except KeyError:
+          gets.append('K')
+      try:
+        sub_num = int(fdm.SubsetFederatedData(sql, ids).num_clients())
+      except ValueError:
+        sub_num = 'ValueError'
+      return {'chunk': {'n': n, 'sql_num': int(sql.num_clients()), 'mem_num': int(mem.num_clients()),
+                        'missing': [hx(i) for i in ids if i not in set(got_ids)][:5], 'n_missing': len(set(ids) - set(got_ids)),
+                        'order_ok': got_ids == ids[:len(got_ids)] if len(got_ids) <= n else False,
+                        'sizes_ok': sizes == {i: 1 for i in got_ids},
+                        'clients_ok': yielded == [(i, ids.index(i)) for i in got_ids],
+                        'gets': gets, 'gets_want': [ids.index(i) for i in sample], 'sub_num': sub_num}}
+    finally:
+      sql._connection.close()
+  finally:
+    shutil.rmtree(tmp, ignore_errors=True)
+
+
 def run(case):
+  if case.get('kind') == 'chunk':
+    return _run_chunk(case)
   import collections
   import sqlite3
   import types
@@ -1004,6 +1064,15 @@ def oracle(case, obs):
     if not any(k == key for k, _ in out):
       out.append((key, msg))
 
+  if 'chunk' in obs:
+    c = obs['chunk']
+    if (c['sql_num'] != c['n'] or c['mem_num'] != c['n'] or c['n_missing'] or not c['order_ok'] or not c['sizes_ok']
+        or not c['clients_ok'] or c['gets'] != c['gets_want'] or c['sub_num'] != c['n']):
+      return [('sqlite-builder-lost-clients',
+               f'{c["n"]} clients written by add_many calls of sizes {case["calls"]}: the SQLite dataset exposes num_clients={c["sql_num"]} '
+               f'(in-memory: {c["mem_num"]}), {c["n_missing"]} ids missing (e.g. {c["missing"]}), order ok={c["order_ok"]}, sizes ok={c["sizes_ok"]}, '
+               f'clients() ok={c["clients_ok"]}, get_client samples {c["gets"]} (want {c["gets_want"]}), subset of all ids: {c["sub_num"]}')]
+    return []
   if 'inmemory_rejects_feature_order' in obs:
     return [('inmemory-rejects-feature-order',
              'InMemoryFederatedData refuses a mapping whose clients hold the same features in a different key order '
@@ -1265,6 +1334,8 @@ def nontrivial(case, obs):
 
 
 def describe(case, obs):
+  if case.get('kind') == 'chunk':
+    return {'kind': 'chunk', 'clients': sum(case['calls'])}
   _, ref, refused = reference(case)
   kinds = sorted({o[0] for o in case['ops']})
   return {'clients': len(case['ds']), 'ops': len(case['ops']), 'final_view_size': min(len(ref[-1][0]), 4),
@@ -1278,6 +1349,8 @@ def describe(case, obs):
 
 
 def shrink(case):
+  if case.get('kind') == 'chunk':
+    return
   ops = case['ops']
   for k in range(len(ops)):
     yield {**case, 'ops': ops[:k] + ops[k + 1:], 'mid': min(case.get('mid', 0), len(ops) - 1)}
